@@ -140,6 +140,9 @@ def r2(repo, run):
             run.ok('C20.R2', where, w.text(), 'exempt: ' + EXEMPT[key] + ('' if moved is None else ' (private helper reached only from %s)' % moved))
         else:
             run.violation('C20.R2', w.fi, w.text(), 'write to process-shared state (%s %s) on a path that builds can reach: two threads building at the same time read / overwrite each other\'s value. Not a thread-local slot and not in the exemption table' % w.root, node=w.node)
+    for cname, attr, muts in shared.class_mutables_via_self(repo):
+        fi_, node_ = muts[0]
+        run.violation('C20.R2', fi_, '%s.%s mutated through self.%s' % (cname, attr, attr), 'per-instance state lives in a class-level mutable object that is never assigned on the instance: it is shared by all instances and threads (%d mutation sites)' % len(muts), node=node_)
     if n < 10:
         raise AnalysisError('shared-write inventory found only %d writes (expected >= 10)' % n)
     run.floors['C20.R2'] = 10
